@@ -11,8 +11,7 @@ from .contract import REGISTRY
 from .solve import discharge_all
 from .verify import Verifier
 
-DEFAULT_POLICIES: dict = {"attrs": {}, "globals": {}}
-SHAPES: dict = {}
+from .defaults import DEFAULT_POLICIES, SHAPES
 
 
 def load_sidecars():
